@@ -141,9 +141,15 @@ def SUBSTITUTE(text, old_text, new_text, instance_num=DEFAULT):
 @dispatcher.register_for('TEXTJOIN')
 def TEXTJOIN(delimiter, ignore_empty, *args):
     delimiter = utils.single(delimiter)
+    ignore_empty = utils.single(ignore_empty)
+    for argument in (delimiter, ignore_empty):
+        # an error value is the result: it is neither a delimiter nor a request to skip blanks
+        if isinstance(argument, error.XLError):
+            return argument
+    if delimiter is None:
+        delimiter = ''  # a blank is the empty text, as for every other text argument
     if not isinstance(delimiter, string_types):
         return error.VALUE
-    ignore_empty = utils.single(ignore_empty)
     items = []
     for item in utils.iflatten(args):
         if isinstance(item, error.XLError):
